@@ -149,7 +149,7 @@ func (t *spentTracker) onRevert(ev chaingen.RevertEvent) {
 func main() {
 	harness.Main(harness.Spec{
 		ID:     "C05",
-		Rule:   "batch 0: shape enumerator (signature-free network; leaf counts 1..N exhaustively, for small accumulators every subset of spent leaves x number of added outputs, each applied, reverted and re-applied); other batches: chaingen histories over the five network families with random reorg schedules (depth up to the whole chain). After every apply/revert every proof in the client store (all kinds, plus proofs of spent outputs) is compared with the naive forest path and verified against State.Elements. distinct = (leaf-count low bits, popcount/trailing-ones pattern before and after, updated?/attestations?, reorg depth per family, enumerated (n, subset, added) shapes).",
+		Rule:   "batch 1 also: fabricated accumulators with arbitrary high bits of the leaf count set (incl. bit 63): one small real tree, a block spending several of its leaves and adding outputs, apply + revert, reported and tracked elements verified; batch 0: shape enumerator (signature-free network; leaf counts 1..N exhaustively, for small accumulators every subset of spent leaves x number of added outputs, each applied, reverted and re-applied); other batches: chaingen histories over the five network families with random reorg schedules (depth up to the whole chain). After every apply/revert every proof in the client store (all kinds, plus proofs of spent outputs) is compared with the naive forest path and verified against State.Elements. distinct = (leaf-count low bits, popcount/trailing-ones pattern before and after, updated?/attestations?, reorg depth per family, enumerated (n, subset, added) shapes).",
 		Assume: []string{"blake2b from x/crypto and the element hashes from the public types.Hasher are the trusted primitives", "the store applies updates in order, as the statement requires"},
 		Batches: func(t string) int {
 			if t == "quick" {
@@ -162,11 +162,14 @@ func main() {
 				runShapes(b)
 				return
 			}
+			if b.Batch == 1 {
+				runHighBits(b)
+			}
 			runHistories(b)
 		},
 		MinEvals:    500,
 		MinDistinct: 100,
-		Require:     []string{"blocks_applied", "blocks_reverted", "store_elements_verified", "forest_root_comparisons", "spent_elements_verified", "tree_nodes_row0_checked", "shape_cases"},
+		Require:     []string{"blocks_applied", "blocks_reverted", "store_elements_verified", "forest_root_comparisons", "spent_elements_verified", "tree_nodes_row0_checked", "shape_cases", "high_bit_cases"},
 		Extra: func(m *harness.Result, cov map[string]any) {
 			cov["exhaustive_subspace"] = "shape enumerator: all leaf counts up to the bound and all spent-subsets x added-counts for small accumulators (batch 0); see counters shape_*"
 		},
